@@ -138,30 +138,53 @@ class Unrepresentable(Exception):
 
 
 def format_tb(t, val, tb):
-    """what `dump` puts into the traceback field; CPython's traceback module itself raises on some exceptions
-    (a SyntaxError whose detail tuple holds non-text `text` / non-int `lineno`): such a sender cannot dump at all"""
+    """(text, None) = what `traceback.format_exception` gives, or (None, error name) when CPython's traceback module itself
+    raises on this exception (a SyntaxError whose detail tuple holds non-text `text` / non-int `lineno`)"""
     try:
-        return "".join(traceback.format_exception(t, val, tb))
+        return "".join(traceback.format_exception(t, val, tb)), None
     except Exception as ex:  # noqa
-        raise Unrepresentable("traceback.format_exception raises %s on the sender" % type(ex).__name__)
+        n = err_name(ex)
+        if n not in KNOWN_ERRS:
+            raise Unrepresentable("traceback.format_exception raises %s" % n)
+        return None, n
+
+
+def err_token(name):
+    if name not in KNOWN_ERRS:
+        raise Unrepresentable("error class %s is not in the model's enum" % name)
+    return "( %s )" % S(name)
 
 
 def extract_record(t, val, tb):
-    """what Python shows `vinegar.dump`: returns (kind, hd_text, tb_text, args_text, reprs_text, dir_text, sendable_attrs)
-    sendable_attrs = [(name, value-as-sent)] for the environment probe of the receiver's setattr"""
+    """what Python shows `vinegar.dump`: returns (kind, hd_text, tb_token, args_text, reprs_text, dir_text, sendable_attrs,
+    walk_token).  sendable_attrs = [(name, value-as-sent)] for the environment probe of the receiver's setattr;
+    tb_token = the formatted traceback or the error formatting raises; walk_token = N or the first error that a repr()/getattr
+    of dump's walk over dir(val) raises (in dir order)"""
     mod, name = t.__module__, t.__name__
     if type(mod) is not str or type(name) is not str:
         raise Unrepresentable("class module/name not text")
     kind = "b" if getattr(builtins, name, None) is t else "c"
-    args, reprs = [], []
-    for a in val.args:
-        txt = valtext.to_text(a)
-        args.append(txt)
-        reprs.append(S(repr(a)) if has_other(txt) else "N")
-    entries, sendable = [], []
+    walk_err = [None]
+
+    def note(ex):
+        if walk_err[0] is None:
+            walk_err[0] = err_name(ex)
+
+    args, reprs, entries, sendable = [], [], [], []
     for n in dir(val):
         if n == "args":
             entries.append("( %s I1 N N )" % S(n))
+            for a in val.args:
+                txt = valtext.to_text(a)
+                args.append(txt)
+                if has_other(txt):
+                    try:
+                        reprs.append(S(repr(a)))
+                    except Exception as ex:  # noqa
+                        note(ex)
+                        reprs.append("N")
+                else:
+                    reprs.append("N")
             continue
         if n.startswith("_"):
             # a private name: some object; the model must skip it without looking
@@ -173,18 +196,26 @@ def extract_record(t, val, tb):
             entries.append("( %s I0 N N )" % S(n))
             continue
         except Exception as ex:  # noqa
-            raise Unrepresentable("getattr(val, %r) raised %s" % (n, type(ex).__name__))
+            note(ex)
+            entries.append("( %s I0 N N )" % S(n))
+            continue
         txt = valtext.to_text(v)
         if has_other(txt):
-            rp = repr(v)
+            try:
+                rp = repr(v)
+            except Exception as ex:  # noqa
+                note(ex)
+                rp = ""
             entries.append("( %s I%d %s %s )" % (S(n), 2 if callable(v) else 1, txt, S(rp)))
             sendable.append((n, rp))
         else:
             entries.append("( %s I%d %s N )" % (S(n), 2 if callable(v) else 1, txt))
             sendable.append((n, v))
-    tbtext = format_tb(t, val, tb)
-    return (kind, "( %s %s )" % (S(mod), S(name)), S(tbtext), "( " + "".join(a + " " for a in args) + ")",
-            "( " + "".join(a + " " for a in reprs) + ")", "( " + "".join(e + " " for e in entries) + ")", sendable)
+    text, terr = format_tb(t, val, tb)
+    tb_token = S(text) if text is not None else err_token(terr)
+    walk = "N" if walk_err[0] is None else err_token(walk_err[0])
+    return (kind, "( %s %s )" % (S(mod), S(name)), tb_token, "( " + "".join(a + " " for a in args) + ")",
+            "( " + "".join(a + " " for a in reprs) + ")", "( " + "".join(e + " " for e in entries) + ")", sendable, walk)
 
 
 # ------------------------------------------------------------------------------------------------ the receiver's environment
@@ -473,6 +504,8 @@ def canon_model_line(line):
     res = {}
     if line == "local":
         return {"local": True}
+    if line.startswith("pay err ") or line.startswith("noreply "):
+        return {"pay": line[4:] if line.startswith("pay ") else line, "dump_failed": True}
     parts = line.split(" | ")
     if parts[0].startswith("pay "):
         res["pay"] = parts[0][4:] if "{" not in parts[0] else valtext.canon(valtext.from_text(parts[0][4:]))
